@@ -34,10 +34,12 @@ LEAVES = {
     'str_nl': '"x\ny"',
     'str_dq': '"a""b"',
     'str_empty': '""',
+    'str_parens_sp': '"( a )"',
     'q_sp': '|q r|',
     'q_nl': '|q\nr|',
     'q_semi': '|;|',
     'q_open': '|(|',
+    'q_parens_sp': '|( a )|',
     'comment': ';c',
 }
 CLASS_OF = {v: k for k, v in LEAVES.items()}
